@@ -260,13 +260,17 @@ impl<'a> SendBlocksProofProcess<'a> {
                 .iter()
                 .any(|hash| matched_blocks.contains_key(&hash.unpack()))
             {
-                if let Some((start_number, _, _)) =
-                    self.protocol.storage().get_earliest_matched_blocks()
-                {
-                    let storage = self.protocol.storage();
-                    let rewind_to = start_number.saturating_sub(1);
-                    if storage.get_min_filtered_block_number() > rewind_to {
-                        storage.update_min_filtered_block_number(rewind_to);
+                // (All pending records are dropped, as `set_scripts` does: a later record which
+                // is finished first would mark the scripts as filtered beyond this range.)
+                let storage = self.protocol.storage();
+                let mut is_rewound = false;
+                while let Some((start_number, _, _)) = storage.get_earliest_matched_blocks() {
+                    if !is_rewound {
+                        let rewind_to = start_number.saturating_sub(1);
+                        if storage.get_min_filtered_block_number() > rewind_to {
+                            storage.update_min_filtered_block_number(rewind_to);
+                        }
+                        is_rewound = true;
                     }
                     storage.remove_matched_blocks(start_number);
                 }
